@@ -367,10 +367,13 @@ C16_MODES = [(1, "read", "jwks_item_get / jwks_item_count / jwks_find_bykid / jw
              (3, "free_bad", "jwks_item_free_bad x2 / __item_free"),
              (4, "free_then_add", "jwks_item_free then jwks_item_add"),
              (5, "free_all", "jwks_item_free_all / jwks_free")]
+C16_QUICK_N = {1: 8, 2: 3, 3: 1, 4: 6, 5: 1}	# ring sizes of the quick tier per scenario (what finishes in minutes)
 P["C16"] = {"property": "C16", "level": "model_checking", "units":
-    [c16_seq("C16.bounded.%s_N%d" % (nm, {3: 1, 5: 1}.get(md, 3)), md, what, {3: 1, 5: 1}.get(md, 3), "quick", 1500) for md, nm, what in C16_MODES] +
-    [c16_seq("C16.bounded.free_all_N2", 5, C16_MODES[4][2], 2, "thorough", 7200),
-     c16_seq("C16.bounded.free_bad_N2", 3, C16_MODES[2][2], 2, "thorough", 7200)]}
+    [c16_seq("C16.bounded.%s_N%d" % (nm, C16_QUICK_N[md]), md, what, C16_QUICK_N[md], "quick", 1500) for md, nm, what in C16_MODES] +
+    # thorough: longer rings for the scenarios that scale (free_all / free_bad with 2 items exhaust 12 GB: not in any tier)
+    [c16_seq("C16.bounded.read_N16", 1, C16_MODES[0][2], 16, "thorough", 3000),
+     c16_seq("C16.bounded.free_then_add_N10", 4, C16_MODES[3][2], 10, "thorough", 3000),
+     c16_seq("C16.bounded.free_twice_N4", 2, C16_MODES[1][2], 4, "thorough", 3000)]}
 
 # =============================== C12 (provider switching) ==================
 OPS_C = "libjwt/jwt-crypto-ops.c"
@@ -846,7 +849,7 @@ share("C18", ["TOP.jwt_checker_verify", "TOP.jwt_builder_generate", "C01.all.jwt
               "C01.all.__check_hmac", "C01.all.__check_key_bits", "C01.jwt_verify_complete", "C01.all.__verify_config_post", "C04.__verify_claims",
               "C01.openssl_sign_sha_hmac", "C01.openssl_verify_sha_pem", "C05.openssl_sign_sha_pem", "C05.jwt_ec_d2i",
               "C01.gnutls_sign_sha_hmac", "C01.gnutls_verify_sha_pem", "C05.gnutls_sign_sha_pem", "C10.jwt_encode",
-              "C14.jwt_parse_head", "C14.jwt_parse_payload", "C06.bounded.jwt_parse_N12", "C16.bounded.read_N3"])
+              "C14.jwt_parse_head", "C14.jwt_parse_payload", "C06.bounded.jwt_parse_N12", "C16.bounded.read_N8"])
 share("C10", ["C15.jwt_claim_set", "C15.jwt_header_set", "C15.__setter"])
 share("C17", ["C15.jwt_claim_set", "C15.jwt_header_set", "C10.jwt_head_setup", "C10.jwt_encode_str", "C17.jwt_malloc", "C17.__jwt_freemem", "C17.jwt_set_alloc"])
 share("C04", ["C15.jwt_claim_get"])
